@@ -233,7 +233,7 @@ def c10_case(args):
         recs.append({"type": SymAtom(f"type{i}") if i % 2 == 0 else "file", "path": SymAtom(f"path{i}"),
                      "contents": SymAtom(f"contents{i}")})
     cov = Coverage()
-    eng = Engine(timeout_ms=30000, max_paths=20000)
+    eng = Engine(timeout_ms=240000, max_paths=20000)
 
     def verdict(ci, category, k):
         key = (ci, k)
